@@ -40,6 +40,13 @@ CHECKS.update({
    note="CPU, single-threaded numerics. emcee_smc offers no way to supply a generator and is not judged. One known finding (Emcee.sample ignores its rng argument)."),
 })
 
+
+CHECKS.update({
+ "C15": dict(level="exploration", ref="DESIGN.md section 4 C15", technique="deterministic simulation: namespace x dtype swarm over whole runs incl. crash/restore; precision/namespace invariants at the model seam and on every recorded population; twin run with/without xp=",
+   text="PARTIAL claim: only what whole simulated runs observe. Every array handed to the user's callables and every population recorded, checkpointed, restored after a crash (bytes and resume_from_file routes) and returned must have the requested float width and namespace; sample_posterior(xp=T) for all 9 ordered namespace pairs must succeed, keep values/fields/width; real zuko and flowjax proposal outputs must be consumable by importance and SMC sampling in every sample namespace (native and string dtype spellings).",
+   note="The direct-conversion grid over all sample classes and the dtype-spelling helpers is a pure function table and is not explored by this family (DESIGN.md section 5/9). CPU only; stub kernels."),
+})
+
 NOT_APPLICABLE = [
   {"property_id": "C02", "reason": "pure function of one array triple (weights/evidence/ESS formulas): no schedule, storage, randomness, interruption or second party for a simulator to control; see DESIGN.md section 5"},
   {"property_id": "C04", "reason": "pure mathematical map per transform configuration, quantified over inputs only: nothing a crash, seed or operation order can decide; see DESIGN.md section 5"},
